@@ -420,8 +420,8 @@ type SimKernel struct {
 	// DeferReply, when it returns a non-nil channel for a request, holds that request's answer back until the channel is
 	// closed; the simulated socket keeps serving later requests meanwhile (add-only hook for the C18 probes)
 	DeferReply func(*SimRequest) <-chan struct{}
-	bsnl     *buffnetlink.Server
-	conns    []*simConn
+	bsnl       *buffnetlink.Server
+	conns      []*simConn
 
 	ReportHook func(req *SimRequest, occ SimOccasion, oids []SimOID) []SimReport
 	OnRequest  func(req *SimRequest)
